@@ -532,6 +532,8 @@ def check_init(dic, cfg):
 
     fails = []
     init = cfg.get("init")
+    if cfg.get("_data") == "same":
+        return fails   # contemporaneous data set: the expectations below are those of the dated one
     TIPS, INTERNAL = [4.0, 3.0, 1.5, 1.0, 0.0, 0.0], [1.0, 2.0, 3.5, 5.0, 6.0]
 
     def root_height():
@@ -739,7 +741,7 @@ def derived_start_violations(C, cfg, emitted, dic):
                             + ", ".join(f"{t}: {own[t][1] if own[t][1] is None else round(own[t][1], 4)}" for t in own)
                             + " (`-f` is documented only as 'frequencies': noted, not counted)")
     t = dic.get("tree")
-    if t is None or cfg.get("_data") == "ymd":
+    if t is None or cfg.get("_data") in ("ymd", "same"):
         return fails
     # ---- branch lengths of the input tree (unrooted), BY TAXON NAME and by clade
     if init in ("brlens_init_tree", "keep") and not cfg.get("clock") and hasattr(t, "tree"):
@@ -785,6 +787,119 @@ def derived_start_violations(C, cfg, emitted, dic):
     return fails
 
 
+# ---------------------------------------------------------------------- generic checks on what is emitted
+def nonfinite_violations(emitted):
+    """the emitted JSON never contains NaN / inf (json.dumps writes them as NaN / Infinity and torchtree reads them back)"""
+    bad = []
+
+    def walk(j, owner):
+        if isinstance(j, dict):
+            o = j.get("id", owner) if isinstance(j.get("id"), str) else owner
+            for k, v in j.items():
+                if isinstance(v, float) and not math.isfinite(v):
+                    bad.append((o, k, v))
+                else:
+                    walk(v, o)
+        elif isinstance(j, list):
+            for v in j:
+                if isinstance(v, float) and not math.isfinite(v):
+                    bad.append((owner, "[]", v))
+                else:
+                    walk(v, owner)
+    walk(emitted, None)
+    def root(o):
+        # one signature per constrained parameter: variational.tree.root_height.unshifted.unres.loc -> tree.root_height
+        parts = [x for x in str(o).split(".") if x not in ("variational",)]
+        return ".".join(parts[:2])
+    out, seen = [], set()
+    for o, k, v in bad:
+        if root(o) not in seen:
+            seen.add(root(o))
+            out.append((f"cli:non-finite-number-emitted:{root(o)}", f"the emitted file holds {v!r} in `{k}` of {o}"))
+    return out[:3]
+
+
+def bounds_violations(with_constraints):
+    """every emitted Parameter lies within its OWN annotated bounds (before the annotations are stripped): lower <= value <=
+    upper (equal bounds only mark a parameter as not estimated); a simplex has positive entries summing to one"""
+    from torchtree.cli.utils import CONSTRAINT
+
+    Lk, Uk, Sk = CONSTRAINT.LOWER.value, CONSTRAINT.UPPER.value, CONSTRAINT.SIMPLEX.value
+    fails = []
+    for d in find_all(with_constraints, lambda d: str(d.get("type", "")).endswith("Parameter") and "tensor" in d
+                      and (Lk in d or Uk in d or d.get(Sk))):
+        v = d["tensor"]
+        flat = []
+
+        def fl(x):
+            if isinstance(x, list):
+                for y in x:
+                    fl(y)
+            elif isinstance(x, (int, float)) and not isinstance(x, bool):
+                flat.append(float(x))
+        fl(v)
+        if not flat:
+            continue
+        lo, hi = d.get(Lk), d.get(Uk)
+        tol = 1e-6 * max(1.0, max(abs(x) for x in flat if math.isfinite(x)) if any(math.isfinite(x) for x in flat) else 1.0)
+        if lo is not None and hi is not None and lo == hi:
+            # equal bounds are the CLI's marker of a parameter that is not estimated (K80 frequencies carry [1, 1], trait
+            # frequencies [0, 0]): not numeric bounds.  What a fixing option must hold is checked per option (check_init)
+            continue
+        if (lo is not None and any(not (x >= lo - tol) for x in flat)) or (hi is not None and any(not (x <= hi + tol) for x in flat)):
+            fails.append((f"cli:value-outside-its-bounds:{d.get('id')}", f"{d.get('id')} = {v} with bounds [{lo}, {hi}]"))
+        if d.get(Sk) and "full" not in d and isinstance(v, list) and (abs(sum(flat) - 1.0) > 1e-5 or any(not (x >= 0) for x in flat)):
+            fails.append((f"cli:simplex-start-not-on-the-simplex:{d.get('id')}", f"{d.get('id')} = {v} (sum {sum(flat)})"))
+    return fails
+
+
+def model_digest(emitted, dic):
+    """what the emitted model IS, independently of how the dates were spelled: every emitted parameter's value and shape keys,
+    the loaded tree's node heights and sampling times by taxon position, the emitted ids and types"""
+    out = {}
+    for d in find_all(emitted, lambda d: isinstance(d.get("id"), str) and "type" in d):
+        if str(d["type"]).endswith("Taxon"):
+            continue      # the date attribute itself is the spelling (2009 vs 0 for contemporaneous taxa)
+        out["type:" + d["id"]] = d["type"]
+        if str(d["type"]).endswith("Parameter") and "tensor" in d:
+            out["value:" + d["id"]] = [d["tensor"], d.get("full")]
+    t = dic.get("tree") if dic else None
+    if t is not None and hasattr(t, "node_heights"):
+        out["tree.node_heights"] = t.node_heights.detach().reshape(-1).tolist()
+    return out
+
+
+def digest_diff(a, b, tol=1e-5):
+    def same(x, y):
+        if isinstance(x, (int, float)) and isinstance(y, (int, float)) and not isinstance(x, bool) and not isinstance(y, bool):
+            return (math.isnan(x) and math.isnan(y)) or math.isclose(x, y, rel_tol=tol, abs_tol=tol)
+        if isinstance(x, list) and isinstance(y, list):
+            return len(x) == len(y) and all(same(p, q) for p, q in zip(x, y))
+        return x == y
+    return [(k, a.get(k), b.get(k)) for k in sorted(set(a) | set(b)) if not same(a.get(k), b.get(k))]
+
+
+def spelling_violations(C, cfg, emitted, dic, data):
+    """a configuration whose dates are spelled another way emits the same model as the one that reads them from the names"""
+    sp = cfg.get("_spelling")
+    if sp in (None, "names"):
+        return []
+    ref = dict(cfg, _spelling="names")
+    try:
+        with contextlib.redirect_stdout(io.StringIO()), contextlib.redirect_stderr(io.StringIO()):
+            e0, text0, _r, _w = C.run_cli(S.to_argv(ref, data), record=False)
+            dic0, _o = C.dry_load(text0)
+    except Exception as e:  # noqa: BLE001
+        return [(f"cli:date-spelling:{sp}:reference-fails", f"the same dates read from the names: {type(e).__name__}: {str(e)[:120]}")]
+    diff = digest_diff(model_digest(emitted, dic), model_digest(e0, dic0))
+    if diff:
+        k, a, b = diff[0]
+        how = {"dates0": "--dates 0", "csv": "--dates <csv repeating the dates of the names>", "regex": "--date_regex (the default pattern)"}[sp]
+        return [(f"cli:date-spelling-changes-model:{sp}", f"dates given as {how}: {k} = {a} but {b} when the same dates are read "
+                 f"from the names ({len(diff)} entries differ)")]
+    return []
+
+
 NO_EFFECT_OK = {("--warmup", "0"), ("--date_regex",), ("--frequencies", "equal")}
 
 
@@ -822,8 +937,9 @@ def check_extra(C, cfg, emitted, dic, data):
         same = json.dumps(base_emitted, sort_keys=True) == json.dumps(emitted, sort_keys=True)
     except Exception:  # noqa: BLE001
         same = False
-    if tuple(extra) in NO_EFFECT_OK or (extra[0],) in NO_EFFECT_OK or (extra[0] == "--frequencies" and cfg.get("model") == "JC69"):
-        pass
+    if tuple(extra) in NO_EFFECT_OK or (extra[0],) in NO_EFFECT_OK or (extra[0] == "--frequencies" and cfg.get("model") == "JC69") \
+            or cfg.get("_overridden"):
+        pass   # (`_overridden`: the option is given TOGETHER with one that takes precedence; it is meant to lose)
     elif same and len(extra) <= 2:
         fails.append((f"cli:option-ignored:{extra[0]}", f"the documented option {extra[0]} changes nothing in the emitted file"))
         return fails
@@ -942,16 +1058,25 @@ def _run_config(C, cfg, data):
     except Exception as e:  # noqa: BLE001
         tb = traceback.extract_tb(e.__traceback__)[-1]
         return "cli-crash", [(f"cli:crash:{type(e).__name__}:{tb.name}", f"the builder raised {type(e).__name__} in {tb.name}: {str(e)[:120]}")], [], None
+    pre = nonfinite_violations(emitted)
+    try:
+        pre += bounds_violations(with_constraints)
+    except Exception as e:  # noqa: BLE001
+        pre.append((f"eval:harness:{type(e).__name__}:bounds_violations", f"bounds check raised {str(e)[:120]}"))
     try:
         with contextlib.redirect_stdout(io.StringIO()), contextlib.redirect_stderr(io.StringIO()):
             dic, _objs = C.dry_load(text)
     except C.LoadFailure as e:
+        if pre:
+            return "emitted-invalid", pre, recs, None
         return "load-fails", [("load:" + e.signature(), f"the emitted file is rejected by torchtree: {e.exc}: {(e.logged[0] if e.logged else e.msg)[:160]}")], recs, None
     try:
         with contextlib.redirect_stdout(io.StringIO()), contextlib.redirect_stderr(io.StringIO()):
             fails = evaluate(dic, cfg["cmd"], cfg, emitted, with_constraints, reload=lambda: C.dry_load(text)[0])
             fails += check_extra(C, cfg, emitted, dic, data)
             fails += derived_start_violations(C, cfg, emitted, dic)
+            fails += spelling_violations(C, cfg, emitted, dic, data)
+        fails = pre + fails
     except Exception as e:  # noqa: BLE001
         tb = traceback.extract_tb(e.__traceback__)[-1]
         fails = [(f"eval:harness:{type(e).__name__}:{tb.name}", f"evaluation raised {type(e).__name__}: {str(e)[:160]}")]
@@ -1208,6 +1333,10 @@ def configs(ck):
         add(c, "frequencies")
     for c in S.derived_starts():
         add(c, "derived-starts")
+    for c in S.precedence():
+        add(c, "precedence")
+    for c in S.date_spellings():
+        add(c, "date-spellings")
     for c in S.pairwise(ck.rng):
         add(c, "pairwise")
     if ck.thorough():
